@@ -9,7 +9,7 @@ from ..interp import cval, has_const
 from ..source import norm_text
 from .formula import match_mono, unit_text
 from .common import def_map, expand
-from .geo import uniq_events
+from .geo import under, uniq_events
 
 VOL = 'gemdat.volume.Volume'
 GFE = f'{VOL}.get_free_energy'
@@ -29,11 +29,11 @@ def check(ctx):
     ctx.floor('R4', 4)
     fi = ctx.fn(GFE)
     it = ctx.entry(GFE)
-    logs = uniq_events(it, {'transcendental'}, lambda f: f.qualname == GFE)
+    logs = uniq_events(it, {'transcendental'}, under(GFE))
     logs = [e for e in logs if e['fn'] == 'log']
     if not logs:
         ctx.ob('R1', fi, 'logarithm', False, 'no logarithm is taken: the result is not -kT ln p')
-    for e in uniq_events(it, {'masked_ufunc'}, lambda f: f.qualname in (GFE, f'{VOL}.probability')):
+    for e in uniq_events(it, {'masked_ufunc'}, under(GFE, f'{VOL}.probability')):
         if e['fn'] == 'log':
             fill = e['fill']
             ctx.ob('R3', fi, e['node'], False,
